@@ -1,7 +1,13 @@
 mod checks;
 mod choice;
+mod emu_common;
+mod emu_a64;
+mod emu_rv;
+mod emu_x86;
 mod fun_ast;
 mod gen_fun;
+mod gen_lin;
+mod heapcheck;
 mod mach_axcut;
 mod mach_core;
 mod tc_axcut;
